@@ -317,7 +317,11 @@ func runC02(x *xctx) *violation {
 	try := func(kind string, desc string, mutated []byte) *violation {
 		simos.PutFile(path, mutated)
 		execs++
-		r, v := c02Try(x, path, true)
+		// Validity, Write->Parse, Copy and Compact for every damaged input; the
+		// eleven text reports for every one in the thorough tier and for every
+		// 8th in the quick tier (they dominate the cost when most damaged
+		// variants of a text format still parse).
+		r, v := c02Try(x, path, x.tier == "thorough" || execs%8 == 0)
 		x.fault(kind, 1)
 		if v != nil {
 			x.tr("fault: %s", desc)
